@@ -355,15 +355,30 @@ def attach_glob(cvh, cases, tag):
             c.fields[0] = c.fields[0] + ";g=" + g
 
 
+STALL = 25.0        # seconds one case may keep a shard busy before it is declared a hang
+
+
+def _limit_memory():
+    import resource
+    try:
+        resource.setrlimit(resource.RLIMIT_AS, (6 << 30, 6 << 30))     # a runaway loop that allocates must not take the machine down
+    except (ValueError, OSError):
+        pass
+
+
 def run_harness(cvh, cases, tag, timeout=1800, shards=None, keep_pid=True):
     """run the in-process harness over the cases, sharded; returns {id: observation}.
-    A shard that dies or stalls yields HANG/CRASH observations for the case in flight."""
+    A shard that dies or whose current case does not end within STALL seconds yields CRASH / HANG for the case in flight and is
+    restarted on the cases it has not run yet (so one endless loop costs STALL seconds, not the whole budget)."""
     os.makedirs(WORK, exist_ok=True)
     shards = shards or NCPU
     n = max(1, min(shards, (len(cases) + 199) // 200))
-    chunks = [cases[i::n] for i in range(n)]
-    procs = []
-    for k, ch in enumerate(chunks):
+    res = {}
+    serial = [0]
+
+    def launch(ch):
+        serial[0] += 1
+        k = serial[0]
         inp = os.path.join(WORK, "%s.cases.%d" % (tag, k))
         outp = os.path.join(WORK, "%s.impl.%d" % (tag, k))
         with open(inp, "w") as f:
@@ -373,39 +388,71 @@ def run_harness(cvh, cases, tag, timeout=1800, shards=None, keep_pid=True):
         env = dict(ENV)
         env["CVH_PROGRESS"] = prog
         env["CVH_CWD"] = make_fixture()
-        p = subprocess.Popen([cvh, inp, outp], env=env, stdout=subprocess.DEVNULL, stderr=subprocess.DEVNULL)
-        procs.append((p, inp, outp, prog, ch))
-    res = {}
-    deadline = time.time() + timeout
-    for p, inp, outp, prog, ch in procs:
-        status = "ok"
-        try:
-            p.wait(timeout=max(1, deadline - time.time()))
-            if p.returncode != 0:
-                status = "CRASH rc=%d" % p.returncode
-        except subprocess.TimeoutExpired:
-            p.kill()
-            p.wait()
-            status = "HANG"
+        p = subprocess.Popen([cvh, inp, outp], env=env, stdout=subprocess.DEVNULL, stderr=subprocess.DEVNULL, preexec_fn=_limit_memory)
+        return {"p": p, "inp": inp, "outp": outp, "prog": prog, "ch": ch, "cur": None, "since": time.time()}
+
+    def collect(sh, status):
         got = {}
-        if os.path.exists(outp):
-            with open(outp) as f:
+        if os.path.exists(sh["outp"]):
+            with open(sh["outp"]) as f:
                 for line in f:
                     line = line.rstrip("\n")
                     if "\t" in line:
-                        i, o = line.split("\t", 1)
-                        got[i] = o
+                        i_, o = line.split("\t", 1)
+                        got[i_] = o
         res.update(got)
+        rest = []
         if status != "ok":
-            cur = open(prog).read().strip() if os.path.exists(prog) else None
-            for c in ch:
+            cur = open(sh["prog"]).read().strip() if os.path.exists(sh["prog"]) else None
+            for c in sh["ch"]:
                 if c.id not in got:
-                    res[c.id] = status if c.id == cur else "NOT-RUN"
-        for x in (inp, outp, prog):
+                    if c.id == cur:
+                        res[c.id] = status
+                    else:
+                        rest.append(c)
+            if cur is None or all(c.id != cur for c in sh["ch"]):
+                # no case was announced: nothing to blame, do not loop
+                for c in rest:
+                    res[c.id] = "NOT-RUN"
+                rest = []
+        for x in (sh["inp"], sh["outp"], sh["prog"]):
             try:
                 os.remove(x)
             except OSError:
                 pass
+        return rest
+
+    live = [launch(cases[i::n]) for i in range(n)]
+    deadline = time.time() + timeout
+    while live:
+        time.sleep(0.05)
+        now = time.time()
+        nxt = []
+        for sh in live:
+            rc = sh["p"].poll()
+            if rc is not None:
+                rest = collect(sh, "ok" if rc == 0 else "CRASH rc=%d" % rc)
+                if rest:
+                    nxt.append(launch(rest))
+                continue
+            try:
+                cur = open(sh["prog"]).read().strip()
+            except OSError:
+                cur = None
+            if cur != sh["cur"]:
+                sh["cur"], sh["since"] = cur, now
+            if now - sh["since"] > STALL or now > deadline:
+                sh["p"].kill()
+                sh["p"].wait()
+                rest = collect(sh, "HANG")
+                if rest and now <= deadline:
+                    nxt.append(launch(rest))
+                else:
+                    for c in rest:
+                        res[c.id] = "NOT-RUN"
+                continue
+            nxt.append(sh)
+        live = nxt
     if not keep_pid:
         # auxiliary queries (what does the glob crate match ...): the pid note of `mask_pid` is of no use
         res = {k: v.rsplit("\t@pid=", 1)[0] for k, v in res.items()}
